@@ -107,6 +107,33 @@ def cookieLine (lvl : Int) (s : List UInt8) : String :=
     s!"res={ckResNum ck.res} " ++
       showKv (cks.map fun e => (e.kind, sliceView buf ck.cpy e.key, e.value.map (sliceView buf ck.cpy)))
 
+/-- `lookup`: the elements laid out as `name NUL value NUL …` in one buffer, then
+    `MHD_lookup_connection_value_n` = `lookupElem`; `z=` is `MHD_lookup_connection_value`
+    (value pointer only: NULL for "not found" and for a NULL value; strlen of the value) -/
+def lookupLine (kind : Nat) (key : List UInt8) (els : List (Nat × List UInt8 × Option (List UInt8))) : String :=
+  let (bl, elems) := els.foldl (fun (acc : List UInt8 × List Elem) (x : Nat × List UInt8 × Option (List UInt8)) =>
+      let kOff := acc.1.length
+      let b1 := acc.1 ++ x.2.1 ++ [0]
+      match x.2.2 with
+      | none => (b1, acc.2 ++ [(⟨x.1, ⟨0, kOff, x.2.1.length⟩, none⟩ : Elem)])
+      | some vv => (b1 ++ vv ++ [0], acc.2 ++ [(⟨x.1, ⟨0, kOff, x.2.1.length⟩, some ⟨0, b1.length, vv.length⟩⟩ : Elem)]))
+    (([] : List UInt8), ([] : List Elem))
+  let buf : Bytes := bl.toArray
+  let r := lookupElem buf elems kind key
+  let v : Option (List UInt8) := r.bind fun e => e.value.map (sliceView buf #[])
+  let main := match r with
+    | none => "no"
+    | some _ => "yes " ++ hexO v
+  if key.contains 0 then main else main ++ " z=" ++ hexO (v.map fun bs => bs.takeWhile (· != 0))
+
+def lookupElems : List String → Option (List (Nat × List UInt8 × Option (List UInt8)))
+  | [] => some []
+  | k :: n :: v :: rest =>
+    match k.toNat?, bytesOfHex n, (if v == "~" then some none else (bytesOfHex v).map some), lookupElems rest with
+    | some kk, some nn, some vv, some r => some ((kk, nn, vv) :: r)
+    | _, _, _, _ => none
+  | _ => none
+
 /-! ### enumeration with digest -/
 
 def alpha : Array UInt8 := #[71, 47, 63, 61, 38, 37, 32, 9, 13, 10, 11, 0, 58, 97, 49, 59]
@@ -221,6 +248,10 @@ def stepLine (_ : Unit) (ws : List String) : Unit × List String :=
       if ml > 8 ∨ pr.length + ml + su.length > 250 then bad
       else ((), [showEnum (enumRec (if op == "enumargs" then 1 else 2) ⟨l, 32768, 0⟩ pr su ml [] {})])
     | _, _, _, _ => bad
+  | "lookup" :: mask :: key :: els =>
+    match mask.toNat?, bytesOfHex key, lookupElems els with
+    | some m, some k, some es => ((), [lookupLine m k es])
+    | _, _, _ => bad
   | ["stream", lvl, pool, s] =>
     match lvl.toInt?, pool.toNat?, bytesOfHex s with
     | some l, some p, some b => ((), [" | ".intercalate (streamReqs l p b.toArray 0 [])])
